@@ -34,6 +34,7 @@ func main() {
 		{"Consts", genConsts},
 		{"AppFsm", genAppFsm},
 		{"ConfConsts", genConfConsts},
+		{"LockOrder", genLockOrder},
 	}
 	for _, g := range gens {
 		if only != "" && only != g.name {
